@@ -41,6 +41,91 @@ let mode_print () =
      | _ -> print_endline "bad-line")
   done with End_of_file -> ())
 
+(* ---- model of look_sysfsnode (coq/Text/LinuxNode.v) against the traced requests ---- *)
+let file_of_hex h = if h = "-empty" then Some [] else Some (bytes_of_hex h)
+let name_of_hex h = if h = "-" then [] else bytes_of_hex h
+type nb = { mutable os : int; mutable cpumap : n list option; mutable distance : n list option;
+            mutable msc : msc_files list option; mutable a1 : n list list option; mutable a0 : n list list option }
+let ln_cfg = ref None and ln_online = ref None and ln_dir = ref (Some []) and ln_nodes = ref [] and ln_view = ref None
+let mreqs = ref []
+let kv_of line = kv_tbl (split_on ' ' line)
+let show_set (s : bset) = text_of_bset (Some s)
+let show_req (m : mreq) = Printf.sprintf "ty=%d os=%d cs=%s ns=%s cd=%d csz=%s" (int_of_n m.r_type) (int_of_n m.r_os) (show_set m.r_cs) (show_set m.r_ns) (int_of_n m.r_depth) (dec_of_n m.r_size)
+let handle_lnode line =
+  match split_on ' ' line with
+  | "lnode" :: "begin" :: _ -> ln_cfg := Some (kv_of line); ln_online := None; ln_dir := Some []; ln_nodes := []; ln_view := None; mreqs := []
+  | ["lnode"; "online"; h] -> ln_online := file_of_hex h
+  | ["lnode"; "nodir"] -> ln_dir := None
+  | ["lnode"; "dir"; h] -> (match !ln_dir with Some l -> ln_dir := Some (l @ [name_of_hex h]) | None -> ())
+  | ["lnode"; "node"; n] -> ln_nodes := { os = int_of_string n; cpumap = None; distance = None; msc = None; a1 = None; a0 = None } :: !ln_nodes
+  | ["lnode"; "f"; _; "cpumap"; h] -> (match !ln_nodes with nb :: _ -> nb.cpumap <- file_of_hex h | [] -> ())
+  | ["lnode"; "f"; _; "distance"; h] -> (match !ln_nodes with nb :: _ -> nb.distance <- file_of_hex h | [] -> ())
+  | ["lnode"; "mdir"; _] -> (match !ln_nodes with nb :: _ -> nb.msc <- Some [] | [] -> ())
+  | ["lnode"; "m"; _; h] -> (match !ln_nodes with nb :: _ -> (match nb.msc with Some l -> nb.msc <- Some (l @ [{ m_name = name_of_hex h; m_size = None; m_line = None; m_indexing = None }]) | None -> ()) | [] -> ())
+  | ["lnode"; "mf"; _; which; h] ->
+      (match !ln_nodes with
+       | nb :: _ -> (match nb.msc with
+                     | Some l when l <> [] ->
+                         let r = Stdlib.List.rev l in
+                         let last = Stdlib.List.hd r in
+                         let last' = (match which with
+                                      | "size" -> { last with m_size = file_of_hex h }
+                                      | "line_size" -> { last with m_line = file_of_hex h }
+                                      | _ -> { last with m_indexing = file_of_hex h }) in
+                         nb.msc <- Some (Stdlib.List.rev (last' :: Stdlib.List.tl r))
+                     | _ -> ())
+       | [] -> ())
+  | ["lnode"; "adir"; _; k] -> (match !ln_nodes with nb :: _ -> if k = "1" then nb.a1 <- Some [] else nb.a0 <- Some [] | [] -> ())
+  | ["lnode"; "a"; _; k; h] ->
+      (match !ln_nodes with
+       | nb :: _ -> if k = "1" then (match nb.a1 with Some l -> nb.a1 <- Some (l @ [name_of_hex h]) | None -> ())
+                    else (match nb.a0 with Some l -> nb.a0 <- Some (l @ [name_of_hex h]) | None -> ())
+       | [] -> ())
+  | ["lnode"; "end"] ->
+      (match !ln_cfg with
+       | Some h ->
+           let g k = Stdlib.Hashtbl.find h k in
+           let b k = g k <> "0" in
+           let view = { nv_dist = b "dist"; nv_dcl = b "dcl"; nv_init = b "init"; nv_knl = b "knl" && b "knlquirk"; nv_fake = b "fake"; nv_msc = b "msc";
+                        nv_overlap = (if g "overlap" = "-" then None else Some (z_of_int (int_of_string (g "overlap"))));
+                        nv_nvidia = b "nvidia"; nv_online = !ln_online; nv_dir = !ln_dir;
+                        nv_nodes = Stdlib.List.rev_map (fun nb -> { nf_os = n_of_int nb.os; nf_cpumap = nb.cpumap; nf_distance = nb.distance;
+                                                                    nf_msc = nb.msc; nf_acc1 = nb.a1; nf_acc0 = nb.a0 }) !ln_nodes } in
+           ln_view := Some (view, b "rootnodes")
+       | None -> ())
+  | _ -> ()
+let handle_mreq line =
+  let h = kv_of line in
+  let g k = Stdlib.Hashtbl.find h k in
+  mreqs := !mreqs @ [((((((n_of_dec (g "ty"), n_of_dec (g "os")), bset_of_text (g "cs")), bset_of_text (g "ns")), n_of_dec (g "cd")), n_of_dec (g "csz")))]
+(* at the end of a load: verdict lines *)
+let judge_lnode () =
+  (match !ln_view with
+   | None -> ()
+   | Some (view, rootnodes) ->
+       let obs = !mreqs in
+       if rootnodes then print_endline "lnode ESCAPE preexisting-nodes"
+       else (match linux_node_requests view with
+             | Unmodelled why -> print_endline ("lnode ESCAPE " ^ ocaml_of_coq_string why)
+             | Requests ms ->
+                 (* the request invariants (theorems of Props/Properties_C18.v) on what the C code requested; only on the modelled path:
+                    the KNL quirk inserts its caches and nodes in another order *)
+                 print_endline (if chain_ok obs then "mreqs chain ok" else "mreqs chain BAD");
+                 (* when no NUMA node was found the core adds its default node afterwards: not a request of the backend *)
+                 let has_numa = Stdlib.List.exists (fun (m : mreq) -> int_of_n m.r_type = 14) ms in
+                 let obs = if (not has_numa) && Stdlib.List.length obs = Stdlib.List.length ms + 1 then Stdlib.List.filteri (fun i _ -> i < Stdlib.List.length ms) obs else obs in
+                 (match first_mismatch ms obs O with
+                  | None -> Printf.printf "lnode ok n=%d\n" (Stdlib.List.length ms)
+                  | Some k ->
+                      let rec nat_to_int = function O -> 0 | S n -> 1 + nat_to_int n in
+                      let k = nat_to_int k in
+                      let sm = (match Stdlib.List.nth_opt ms k with Some m -> show_req m | None -> "<none>") in
+                      let so = (match Stdlib.List.nth_opt obs k with
+                                | Some (((((ty, os), cs), ns), cd), csz) -> Printf.sprintf "ty=%d os=%d cs=%s ns=%s cd=%d csz=%s" (int_of_n ty) (int_of_n os) (text_of_bset cs) (text_of_bset ns) (int_of_n cd) (dec_of_n csz)
+                                | None -> "<none>") in
+                      Printf.printf "lnode DIFF at=%d nmodel=%d nimpl=%d model=[%s] impl=[%s]\n" k (Stdlib.List.length ms) (Stdlib.List.length obs) sm so)));
+  ln_view := None; ln_cfg := None; mreqs := []
+
 let mode_dumps () =
   let last = ref None in
   let named = Stdlib.Hashtbl.create 16 in
@@ -86,6 +171,9 @@ let mode_dumps () =
                  | [] -> print_endline "disallowed ok"
                  | vs -> print_endline ("disallowed VIOLATION " ^ Stdlib.String.concat " " (Stdlib.List.map (fun (c, i) -> ocaml_of_coq_string c ^ "@" ^ string_of_int (int_of_n i)) vs)))
             | _ -> print_endline "disallowed SKIP")
+       | "lnode" :: _ -> handle_lnode l
+       | "mreq" :: _ -> handle_mreq l
+       | "load" :: _ -> print_endline l; judge_lnode ()
        | _ -> print_endline l)
 
 let () =
